@@ -89,6 +89,9 @@ pub struct Session {
     pub p_taint: BTreeSet<u64>,
     /// (server entity, kind) -> first tick from which comparisons are valid again (u32::MAX = tainted).
     pub ent_taint: BTreeMap<(u64, Kind), u32>,
+    /// Mutate message id -> tainted references it re-sends: the taint ends only if the client really writes
+    /// that message's data for the entity (an unreliable re-send may be lost or skipped as outdated).
+    pub heal_pending: BTreeMap<u64, Vec<(u64, Kind)>>,
     pub sev_sent: BTreeMap<u32, Vec<SentEv>>,
     pub sev_seen: Vec<(SEv, u32)>,
     /// Value of the global event counter when the session started.
@@ -149,6 +152,7 @@ impl Session {
             p_sent: BTreeMap::new(),
             p_taint: BTreeSet::new(),
             ent_taint: BTreeMap::new(),
+            heal_pending: BTreeMap::new(),
             sev_sent: BTreeMap::new(),
             sev_seen: vec![],
             first_seq,
@@ -511,7 +515,7 @@ impl Sim {
         self.server.world().get_entity(ce).map(|r| r.contains::<AuthorizedClient>()).unwrap_or(false)
     }
 
-    fn log(&mut self, s: String) {
+    pub fn log(&mut self, s: String) {
         if self.verbose {
             self.trace_log.push(s);
         }
